@@ -260,3 +260,29 @@ theorem weiFitBinned_post (h : Hist α) (st : St) (ps : Array α) (hr : weiFitCo
     exact ⟨a, c, b⟩
 
 end EaselModel.Stats
+
+namespace EaselModel.Stats
+open Num
+variable {α : Type} [Num α]
+
+/-- `esl_gam_FitCompleteBinned` (model): bracketing (≤ 100 doublings/halvings) and bisection (≤ 100 steps) are capped, so the routine
+    is total; a result has status eslOK, eslEINVAL (true-censored data / a midpoint below mu) or eslENOHALT, and three parameters -/
+theorem gamFitBinned_post (h : Hist α) (st : St) (ps : Array α) (hr : gamFitCompleteBinned h = .res st ps) :
+    (st = .ok ∨ st = .einval ∨ st = .enohalt) ∧ ps.size = 3 := by
+  unfold gamFitCompleteBinned at hr
+  split at hr
+  · injection hr with h1 h2; subst h1; subst h2; exact ⟨Or.inr (Or.inl rfl), rfl⟩
+  · simp only [] at hr
+    split at hr
+    · cases hr
+    · split at hr
+      · injection hr with h1 h2; subst h1; subst h2; exact ⟨Or.inr (Or.inl rfl), rfl⟩
+      · split at hr
+        · injection hr with h1 h2; subst h1; subst h2; exact ⟨Or.inl rfl, rfl⟩
+        · split at hr
+          · injection hr with h1 h2; subst h1; subst h2; exact ⟨Or.inr (Or.inr rfl), rfl⟩
+          · split at hr
+            · injection hr with h1 h2; subst h1; subst h2; exact ⟨Or.inr (Or.inr rfl), rfl⟩
+            · injection hr with h1 h2; subst h1; subst h2; exact ⟨Or.inl rfl, rfl⟩
+
+end EaselModel.Stats
